@@ -174,6 +174,7 @@ type Normer struct {
 	depth      int
 	MaxInline  int
 	memo       map[ssa.Value]Poly
+	sliceLen   map[string]ssa.Value
 	FoldTables bool // reads of immutable package tables at constant positions become constants
 }
 
@@ -370,7 +371,15 @@ func (n *Normer) Norm(v ssa.Value) Poly {
 		return pAtom("closure:" + n.P.FuncName(x.Fn.(*ssa.Function)))
 	case *ssa.Next, *ssa.Range, *ssa.Select, *ssa.MakeSlice, *ssa.MakeMap, *ssa.MakeChan:
 		n.opaque(fmt.Sprintf("%T %s", v, v.Name()))
-		return pAtom(fmt.Sprintf("%T:%s.%s", v, n.P.FuncName(v.Parent()), v.Name()))
+		name := fmt.Sprintf("%T:%s.%s", v, n.P.FuncName(v.Parent()), v.Name())
+		if mk, ok := v.(*ssa.MakeSlice); ok {
+			// len(make([]T, k)) == k: remembered under the slice's atom
+			if n.sliceLen == nil {
+				n.sliceLen = map[string]ssa.Value{}
+			}
+			n.sliceLen[name] = mk.Len
+		}
+		return pAtom(name)
 	}
 	n.opaque(fmt.Sprintf("unsupported value %T %s", v, v.String()))
 	return pAtom(fmt.Sprintf("?%T:%s", v, v.Name()))
@@ -672,6 +681,11 @@ func (n *Normer) normCall(x *ssa.Call) Poly {
 		var args []string
 		for _, a := range cc.Args {
 			args = append(args, n.Norm(a).asAtom())
+		}
+		if b.Name() == "len" && len(args) == 1 {
+			if lv, ok := n.sliceLen[args[0]]; ok {
+				return n.Norm(lv)
+			}
 		}
 		if b.Name() == "len" || b.Name() == "cap" {
 			// len of a constant string folds
